@@ -18,14 +18,13 @@ From Coq Require Import List ZArith Bool Arith.
 From DV Require Import Base.PyList Model.C02_Variation.
 Import ListNotations.
 
-Section Rt.
-Variables G F T : Type.
-Variable mate_o : nat -> G * option F -> G * option F -> mate_ans G F.
-Variable mut_o : nat -> G * option F -> mut_ans G F.
+(* ---- the monad and the state-independent statements (generic in the state type, so that the
+        regenerated loops eaSimple / eaMuPlusLambda / eaMuCommaLambda, whose state is the `fstate` of
+        Model/C03_Full.v, use the same vocabulary: Model/C02_GenLoopsRt.v) ---- *)
+Section Monad.
+Variable S : Type.
 
-Notation st := (st G F T).
-
-Definition M (A : Type) : Type := st -> st * (exn + A).
+Definition M (A : Type) : Type := S -> S * (exn + A).
 
 Definition ret {A} (a : A) : M A := fun s => (s, inr a).
 Definition raise {A} (e : exn) : M A := fun s => (s, inl e).
@@ -34,6 +33,49 @@ Definition bind {A B} (m : M A) (f : A -> M B) : M B :=
            | (s1, inr a) => f a s1
            | (s1, inl e) => (s1, inl e)
            end.
+
+(* l[i] and l[i] = v *)
+Definition m_get (l : list nat) (i : Z) : M nat :=
+  match py_get l i with Some x => ret x | None => raise IndexError end.
+Definition m_set (l : list nat) (i : Z) (v : nat) : M (list nat) :=
+  match py_set l i v with Some l' => ret l' | None => raise IndexError end.
+
+(* a, b = e   /   a, = e *)
+Definition unpack2 (l : list nat) : M (nat * nat) :=
+  match l with [a; b] => ret (a, b) | _ => raise ValueError end.
+Definition unpack1 (l : list nat) : M nat :=
+  match l with [a] => ret a | _ => raise ValueError end.
+
+Definition m_assert (b : bool) : M unit := if b then ret tt else raise AssertionError.
+
+(* [f x for x in l]  /  list(map(f, l)) *)
+Fixpoint map_M {A B} (f : A -> M B) (l : list A) : M (list B) :=
+  match l with
+  | [] => ret []
+  | x :: r => bind (f x) (fun y => bind (map_M f r) (fun ys => ret (y :: ys)))
+  end.
+
+(* for x in xs: body   -- c = the loop-carried locals *)
+Fixpoint for_each {X C} (xs : list X) (body : X -> C -> M C) (c : C) : M C :=
+  match xs with
+  | [] => ret c
+  | x :: r => bind (body x c) (fun c' => for_each r body c')
+  end.
+
+End Monad.
+
+Arguments ret {S A}. Arguments raise {S A}. Arguments bind {S A B}.
+Arguments m_get {S}. Arguments m_set {S}. Arguments unpack2 {S}. Arguments unpack1 {S}.
+Arguments m_assert {S}. Arguments map_M {S A B}. Arguments for_each {S X C}.
+
+(* ---- the statements of varAnd / varOr: state = the `st` of the hand model ---- *)
+Section Rt.
+Variables G F T : Type.
+Variable mate_o : nat -> G * option F -> G * option F -> mate_ans G F.
+Variable mut_o : nat -> G * option F -> mut_ans G F.
+
+Notation st := (st G F T).
+Notation M := (M st).
 
 (* random.random() *)
 Definition m_random : M T :=
@@ -84,42 +126,10 @@ Definition m_mutate (a : nat) : M (list nat) :=
 (* del u.fitness.values *)
 Definition m_del (u : nat) : M unit := fun s => (do_del s u, inr tt).
 
-(* l[i] and l[i] = v *)
-Definition m_get (l : list nat) (i : Z) : M nat :=
-  match py_get l i with Some x => ret x | None => raise IndexError end.
-Definition m_set (l : list nat) (i : Z) (v : nat) : M (list nat) :=
-  match py_set l i v with Some l' => ret l' | None => raise IndexError end.
-
-(* a, b = e   /   a, = e *)
-Definition unpack2 (l : list nat) : M (nat * nat) :=
-  match l with [a; b] => ret (a, b) | _ => raise ValueError end.
-Definition unpack1 (l : list nat) : M nat :=
-  match l with [a] => ret a | _ => raise ValueError end.
-
-Definition m_assert (b : bool) : M unit := if b then ret tt else raise AssertionError.
-
-(* [f x for x in l]  /  list(map(f, l)) *)
-Fixpoint map_M {A B} (f : A -> M B) (l : list A) : M (list B) :=
-  match l with
-  | [] => ret []
-  | x :: r => bind (f x) (fun y => bind (map_M f r) (fun ys => ret (y :: ys)))
-  end.
-
-(* for x in xs: body   -- c = the loop-carried locals *)
-Fixpoint for_each {X C} (xs : list X) (body : X -> C -> M C) (c : C) : M C :=
-  match xs with
-  | [] => ret c
-  | x :: r => bind (body x c) (fun c' => for_each r body c')
-  end.
-
 End Rt.
 
-Arguments M G F T A : clear implicits.
-Arguments ret {G F T A}. Arguments raise {G F T A}. Arguments bind {G F T A B}.
 Arguments m_random {G F T}. Arguments m_sample2 {G F T}. Arguments m_choice {G F T}.
 Arguments m_clone {G F T}. Arguments m_mate {G F T}. Arguments m_mutate {G F T}. Arguments m_del {G F T}.
-Arguments m_get {G F T}. Arguments m_set {G F T}. Arguments unpack2 {G F T}. Arguments unpack1 {G F T}.
-Arguments m_assert {G F T}. Arguments map_M {G F T A B}. Arguments for_each {G F T X C}.
 
 Declare Scope c02m_scope.
 Delimit Scope c02m_scope with c02m.
